@@ -69,9 +69,10 @@ void ezc3d::DataNS::AnalogsNS::Analogs::subframe(const ezc3d::DataNS::AnalogsNS:
     if (idx == SIZE_MAX)
         _subframe.push_back(subframe);
     else{
-        if (idx >= nbSubframes())
+        ezc3d::DataNS::AnalogsNS::SubFrame copy(subframe); // made before resizing: the element sent may be one of this container
+        if (idx >= _subframe.size())
             _subframe.resize(idx+1);
-        _subframe[idx] = subframe;
+        _subframe[idx] = copy;
     }
 }
 
